@@ -1,8 +1,72 @@
+import Martian.Lexer
+import Gen.Facts
 import Driver.Util
 
-/-! Line-protocol handler for property C08 (stub: replaced when the model exists). -/
+/-! Line-protocol handler for property C08 (lexer → converter contract). -/
 namespace Driver.C08
+open Martian.Lexer Driver
 
-def handle (_op : String) (_args : List String) : Option String := none
+/-- which float rule the current source has (regenerated regex string) -/
+def colonRule : Bool := Gen.tokFloatRegex == floatRuleSrcColon
+
+def optTok : Option Bytes → String
+  | some t => "some " ++ hexOfBytes t
+  | none => "none"
+
+def numTokStr : NumTok → String
+  | .float t => "float " ++ hexOfBytes t
+  | .int t => "int " ++ hexOfBytes t
+  | .invalid t => "invalid " ++ hexOfBytes t
+  | .nomatch => "nomatch"
+
+def actionStr : Action (Bytes × List Bytes) → String
+  | .ok (p, args) => "ok " ++ hexOfBytes p ++ " " ++ hexList args
+  | .error => "error"
+  | .panic => "panic"
+
+def handle (op : String) (args : List String) : Option String :=
+  match op, args with
+  | "rules", [] =>
+    pure (boolStr (Gen.tokIntRegex == intRuleSrc) ++ " " ++
+          boolStr (Gen.tokFloatRegex == floatRuleSrc) ++ " " ++
+          boolStr (Gen.tokFloatRegex == floatRuleSrcColon) ++ " " ++
+          boolStr (Gen.tokStringRegex == stringRuleSrc))
+  | "int", [s] => do
+    let b ← bytesOfHex s
+    pure (optTok (matchInt b))
+  | "float", [s] => do
+    let b ← bytesOfHex s
+    pure (optTok (matchFloat colonRule b))
+  | "string", [s] => do
+    let b ← bytesOfHex s
+    pure (optTok (matchString b))
+  | "parseint", [s] => do
+    let b ← bytesOfHex s
+    match parseInt b with
+    | some v => pure ("some " ++ toString v)
+    | none => pure "panic"
+  | "parsefloat", [bits, s] => do
+    let b ← bytesOfHex s
+    match parseFloat (bits == "32") b with
+    | some _ => pure "ok"
+    | none => pure "panic"
+  | "unquote", [s] => do
+    let b ← bytesOfHex s
+    match unquoteBytes b with
+    | some v => pure ("some " ++ hexOfBytes v)
+    | none => pure "panic"
+  | "numtok", [s] => do
+    let b ← bytesOfHex s
+    pure (numTokStr (numTok colonRule b))
+  | "numtok0", [s] => do
+    let b ← bytesOfHex s
+    pure (numTokStr (numTokUnchecked colonRule b))
+  | "src", [s] => do
+    let b ← bytesOfHex s
+    pure (actionStr (srcAction b))
+  | "src0", [s] => do
+    let b ← bytesOfHex s
+    pure (actionStr (srcActionUnchecked b))
+  | _, _ => none
 
 end Driver.C08
